@@ -530,6 +530,12 @@ func genC16Case(r *Rng) c16Case {
 			tx = append(tx, genMsg(r, sh, 0))
 		}
 		cs.Txs = append(cs.Txs, tx)
+		// a removal of several contracts in one message is followed by a gated op from every one of them
+		if len(tx) == 1 && tx[0].T == "edit" && tx[0].Action == "remove" && len(tx[0].Cs) >= 2 {
+			for _, c := range tx[0].Cs {
+				cs.Txs = append(cs.Txs, []c16Msg{{T: "gated", K: gkinds[r.Intn(4)], Sender: c, V: r.Intn(1000)}})
+			}
+		}
 	}
 	return cs
 }
